@@ -20,12 +20,14 @@ Failed(t) ==
     IF t.timeout THEN {"did_not_terminate"} ELSE
     IF t.raised # "" THEN {"raised"} ELSE
     {c \in {"member_not_a_vertex_set", "member_not_a_clique_of_the_input", "member_size_out_of_bounds", "edge_covered_twice",
-            "edge_uncovered", "working_graph_has_edges_left", "isolated_maximal_clique_not_intact"} :
+            "edge_uncovered", "working_graph_has_edges_left", "isolated_maximal_clique_not_intact",
+            "returned_cover_changed_by_a_later_cover"} :
        CASE c = "member_not_a_vertex_set" -> \E i \in DOMAIN cov : Cardinality(mem(i)) # Len(cov[i])
          [] c = "member_not_a_clique_of_the_input" -> \E i \in DOMAIN cov : ~(edgesOfMember(i) \subseteq e0)
          [] c = "member_size_out_of_bounds" -> \E i \in DOMAIN cov : Cardinality(mem(i)) < 2 \/ Cardinality(mem(i)) > t.m0
          [] c = "edge_covered_twice" -> \E i, j \in DOMAIN cov : i # j /\ edgesOfMember(i) \cap edgesOfMember(j) # {}
          [] c = "edge_uncovered" -> UNION {edgesOfMember(i) : i \in DOMAIN cov} # e0
+         [] c = "returned_cover_changed_by_a_later_cover" -> t.cover_again # t.cover
          [] c = "working_graph_has_edges_left" -> t.has_edges_after
          [] c = "isolated_maximal_clique_not_intact" ->
                t.check_isolated /\ \E mc \in mcs :
